@@ -2422,7 +2422,22 @@ func (b *recBatch) tryBuffer(pr promisedRec, produceVersion, maxBatchBytes int32
 	nums := b.calculateRecordNumbers(pr.Record)
 
 	batchWireLength, _, _ := b.wireLengthForProduceVersion(produceVersion)
-	newBatchLength := batchWireLength + nums.wireLength()
+	recordLength := nums.wireLength()
+	if produceVersion <= 2 {
+		// Produce v0-v2 write message sets, where this record costs a
+		// whole message rather than a v2 record. If the version is
+		// not yet known (negative), we take the larger of the two,
+		// matching the pessimistic batch length above. Sizing the
+		// record as a v2 record here would admit a batch that the
+		// request builder can never fit into a request.
+		if l := messageSet1Length(pr.Record); produceVersion >= 0 || l > recordLength {
+			recordLength = l
+		}
+		if batchWireLength < 0 { // empty v0 batch: v1wireLength (0) minus the timestamp
+			batchWireLength = 0
+		}
+	}
+	newBatchLength := batchWireLength + recordLength
 
 	if b.frozen || newBatchLength > maxBatchBytes {
 		return false, false
